@@ -19,6 +19,7 @@ Definition ref_names (r : ref) : list bytes :=
   | RSchemaRes _ n => [n]
   | RType _ n => [n]
   | RPrefixed _ n => [n]
+  | RPrefixedCol _ t c => [t; c]
   | RBare n => [n]
   | RNew n => [n]
   end.
@@ -26,7 +27,7 @@ Definition ref_own (r : ref) : option bytes :=
   match r with
   | RTable t | RTableRes t _ => o_schema t
   | RSchemaRes s _ => s
-  | RType ns _ | RPrefixed ns _ => ns
+  | RType ns _ | RPrefixed ns _ | RPrefixedCol ns _ _ => ns
   | RBare _ | RNew _ => None
   end.
 
@@ -103,31 +104,51 @@ Proof.
   - constructor; [apply create_table_refs_ok|constructor].
 Qed.
 
+Lemma enum_ref_ok (e : option (option bytes * bytes)) :
+  Forall qualifying (match e with Some (ns, n) => [RType ns n] | None => [] end).
+Proof. destruct e as [[ns n]|]; repeat constructor. Qed.
+
+Lemma alter_fwd_ok pg s : Forall qualifying (alter_fwd pg s).
+Proof.
+  destruct s; simpl; try constructor; try apply col_refs_ok; try (repeat constructor; fail).
+  destruct (pg && ty && negb to_serial); [apply enum_ref_ok|constructor].
+Qed.
+Lemma alter_bwd_ok pg s : Forall qualifying (alter_bwd pg s).
+Proof.
+  destruct s; simpl; try constructor; try apply col_refs_ok; try (repeat constructor; fail).
+  destruct (pg && ty && negb to_serial); [apply enum_ref_ok|constructor].
+Qed.
+
 Lemma alter_stmts_ok pg head l : qualifying head -> stmts_ok (alter_stmts pg head l).
 Proof.
   intros H. unfold alter_stmts. destruct l as [|x l]; [constructor|].
-  assert (F : forall l', Forall qualifying (flat_map (alter_fwd pg) l')).
-  { intros l'. apply refs_flat_map. intros s. destruct s; simpl; try constructor; try apply col_refs_ok; repeat constructor. }
-  assert (B : forall l', Forall qualifying (flat_map (alter_bwd pg) l')).
-  { intros l'. apply refs_flat_map. intros s. destruct s; simpl; try constructor; try apply col_refs_ok; repeat constructor. }
   constructor.
-  - unfold stmt_ok. cbn [s_refs cmd]. constructor; [exact H|apply (F (x :: l))].
+  - unfold stmt_ok. cbn [s_refs cmd]. constructor; [exact H|apply refs_flat_map, alter_fwd_ok].
   - destruct (existsb irreversible (x :: l)); [constructor|].
-    constructor; [|constructor]. unfold stmt_ok. cbn [s_refs]. constructor; [exact H|apply B].
+    constructor; [|constructor]. unfold stmt_ok. cbn [s_refs]. constructor; [exact H|apply refs_flat_map, alter_bwd_ok].
 Qed.
 
 Lemma pg_modify_table_ok t subs : stmts_ok (pg_modify_table t subs).
 Proof.
   unfold pg_modify_table. repeat apply stmts_ok_app.
   - apply stmts_ok_flat_map. intros s. destruct s; try constructor.
-    destruct (i_uconst i); [constructor|apply pg_drop_index_ok].
+    + destruct (i_uconst i); [constructor|apply pg_drop_index_ok].
+    + destruct parts; [|constructor]. destruct (i_uconst from); [constructor|apply pg_drop_index_ok].
+  - apply stmts_ok_flat_map. intros s. destruct s; try constructor.
+    destruct ty; [|constructor]. destruct to_serial; [|constructor]. repeat constructor.
   - apply alter_stmts_ok. exact I.
   - apply stmts_ok_flat_map. intros s. destruct s; try constructor.
-    destruct (i_uconst i); [constructor|apply pg_add_index_ok].
+    + destruct (i_uconst i); [constructor|apply pg_add_index_ok].
+    + destruct parts; [|constructor]. destruct (i_uconst to); [constructor|apply pg_add_index_ok].
   - apply stmts_ok_flat_map. intros s. destruct s; try constructor; try ok1.
     + destruct (c_comment c); [ok1|constructor].
     + destruct (i_comment i); [ok1|constructor].
+    + destruct comment; [ok1|constructor].
+    + destruct comment; [ok1|constructor].
 Qed.
+
+Lemma mysql_modify_table_ok t subs : stmts_ok (mysql_modify_table t subs).
+Proof. unfold mysql_modify_table. apply stmts_ok_app; apply alter_stmts_ok; exact I. Qed.
 
 Lemma repeat_stmt_ok n s : stmt_ok s -> stmts_ok (repeat_stmt n s).
 Proof. intros H. induction n; simpl; constructor; auto. Qed.
@@ -138,7 +159,7 @@ Proof.
   - apply add_table_ok.
   - apply drop_table_ok.
   - unfold rename_table. repeat constructor.
-  - destruct pg; [apply pg_modify_table_ok|]. unfold mysql_modify_table. apply alter_stmts_ok. exact I.
+  - destruct pg; [apply pg_modify_table_ok|apply mysql_modify_table_ok].
   - repeat constructor.
   - repeat constructor.
   - apply repeat_stmt_ok. ok1.
